@@ -24,10 +24,11 @@ type prioRoles struct {
 	sendPrioIdx   int // parameter of sendFn that becomes the Priority tag
 	resetFn       *ssa.Function
 	safeDivideFn  *ssa.Function
-	sumFn         *ssa.Function // plain sum of a distribution
-	vacantsFn     *ssa.Function // the helper returning H - sum(actual), or the function that computes it in place
-	vacantsExprs  []*ssa.BinOp  // the subtraction(s) H - sum(actual)
-	vacantsInline bool          // the subtraction is written in place (vacantsFn does more than return it)
+	sumFn         *ssa.Function          // plain sum of a distribution
+	vacantsFn     *ssa.Function          // the helper returning H - sum(actual), or the function that computes it in place
+	vacantsExprs  []*ssa.BinOp           // the subtraction(s) H - sum(actual)
+	vacantsInline bool                   // the subtraction is written in place (vacantsFn does more than return it)
+	vacantsInner  map[*ssa.Function]bool // pure helpers behind vacantsFn (each with a single call site)
 	topUpFn       *ssa.Function
 	decActualFn   *ssa.Function
 	releaseRole   string
@@ -198,7 +199,8 @@ func resolvePrio(p *Prog) (*prioRoles, error) {
 				if !ok || bo.Op != token.SUB {
 					continue
 				}
-				if _, path, okp := deepStrip(p.Sym(bo.X)).FieldPath(); !okp || !strings.HasSuffix(strings.Join(path, "."), "HandlersQuantity") {
+				// (both operands may reach a pure helper as arguments: calcVacants(H, actual))
+				if _, path, okp := deepStrip(p.upParam(p.Sym(bo.X), 0)).FieldPath(); !okp || !strings.HasSuffix(strings.Join(path, "."), "HandlersQuantity") {
 					continue
 				}
 				y := stripChangeType(bo.Y)
@@ -206,7 +208,10 @@ func resolvePrio(p *Prog) (*prioRoles, error) {
 					y = ex.Tuple
 				}
 				call, isCall := y.(*ssa.Call)
-				if !isCall || len(call.Call.Args) != 1 || !p.isFieldLoad(call.Call.Args[0], "actual") || !p.IsProduct(p.Callee(call)) {
+				if !isCall || len(call.Call.Args) != 1 || !p.IsProduct(p.Callee(call)) {
+					continue
+				}
+				if _, apath, okp := deepStrip(p.upParam(p.Sym(call.Call.Args[0]), 0)).FieldPath(); !okp || apath[len(apath)-1] != "actual" {
 					continue
 				}
 				pr.vacantsExprs = append(pr.vacantsExprs, bo)
@@ -243,6 +248,53 @@ func resolvePrio(p *Prog) (*prioRoles, error) {
 		}
 		if len(pr.vacantsExprs) != 1 {
 			pr.vacantsInline = true
+		}
+		// a wrapper that only hands the helper's answer on (dsc.calcVacants() = calcVacants(H, actual))
+		// is the producer the callers see
+		for depth := 0; depth < 3 && !pr.vacantsInline; depth++ {
+			sites := p.CallSites(pr.vacantsFn)
+			if len(sites) != 1 {
+				break
+			}
+			w := sites[0].Parent()
+			inRoutine := false
+			for _, f := range pr.rt.Funcs {
+				if f == w {
+					inRoutine = true
+				}
+			}
+			if !inRoutine || w == pr.vacantsFn {
+				break
+			}
+			passes := true
+			nret := 0
+			for _, b := range w.Blocks {
+				ret, ok := b.Instrs[len(b.Instrs)-1].(*ssa.Return)
+				if !ok || b == w.Recover {
+					continue
+				}
+				nret++
+				vals := returnedValues(ret)
+				if len(vals) == 0 {
+					passes = false
+					continue
+				}
+				v := stripChangeType(vals[0])
+				if ex, isEx := v.(*ssa.Extract); isEx && ex.Index == 0 {
+					v = ex.Tuple
+				}
+				if v != ssa.Value(sites[0].Value()) {
+					passes = false
+				}
+			}
+			if !passes || nret != 1 {
+				break
+			}
+			if pr.vacantsInner == nil {
+				pr.vacantsInner = map[*ssa.Function]bool{}
+			}
+			pr.vacantsInner[pr.vacantsFn] = true
+			pr.vacantsFn = w
 		}
 	}
 	var missing []string
@@ -376,7 +428,7 @@ func (pr *prioRoles) vacantsValue(v ssa.Value) (ssa.Instruction, bool) {
 	if ex, ok := v.(*ssa.Extract); ok && ex.Index == 0 {
 		v = ex.Tuple
 	}
-	if call, ok := v.(*ssa.Call); ok && !pr.vacantsInline && pr.p.Callee(call) == pr.vacantsFn {
+	if call, ok := v.(*ssa.Call); ok && !pr.vacantsInline && (pr.p.Callee(call) == pr.vacantsFn || pr.vacantsInner[pr.p.Callee(call)]) {
 		return call, true
 	}
 	return nil, false
